@@ -89,7 +89,7 @@ class FakeSelector(selectors.BaseSelector):
     def select(self, timeout=None):
         out = self._scan()
         if not out and (timeout is None or timeout > 0):
-            self.k.would_block(timeout)
+            self.k.would_block(timeout, lambda: bool(self._scan()))
             out = self._scan()
         return [(self._map[fd], out[fd]) for fd in self.k.order(out) if fd in self._map]
 
